@@ -165,6 +165,6 @@ package api
 //@ func type:SubsetNodesFn
 //@   modifies *
 //@   ensures [assumed] framework.pluginFrame()
-//@   ensures [assumed] result1 == nil ==> forall a int, i int :: 0 <= a && a < len(result0) && 0 <= i && i < len(result0[a]) ==> result0[a][i] != nil && (exists j int :: 0 <= j && j < len(nodeSet) && old(nodeSet[j]) == result0[a][i])
+//@   ensures [assumed] result1 == nil ==> forall a int :: 0 <= a && a < len(result0) ==> forall i int :: 0 <= i && i < len(result0[a]) ==> result0[a][i] != nil && (exists j int :: 0 <= j && j < len(nodeSet) && old(nodeSet[j]) == result0[a][i])
 //@   note assumed (was assumed at the wrapper Session.SubsetNodesFn before): every registered subset function (topology plugin) returns non-nil nodes of the node set it is given; plugin frame
 //@ end
